@@ -46,6 +46,11 @@ type C07Case struct {
 	Start         uint64    `json:"start"`
 	Limit         uint64    `json:"limit"`
 	Corr          []C07Corr `json:"corr,omitempty"`
+	// Retry: the client caches (default URL). The corruption hits the first
+	// Get; a second Get for the same range then sees clean responses and must
+	// not return anything but the node's data (a response that failed
+	// validation must not be served from the segment cache).
+	Retry bool `json:"retry,omitempty"`
 }
 
 // directRT, when set, serves HTTP synchronously (client-level harnesses).
@@ -706,6 +711,7 @@ func RunC07(t *testing.T, plan *Plan, st *core.Stream, extra Extra, keepLog bool
 	f := cs.filter()
 	var ex []*c07Exchange
 	applied := 0
+	phase := 0
 	directMu.Lock()
 	defer directMu.Unlock()
 	directRT = func(url string, body []byte) (int, []byte, error) {
@@ -727,7 +733,7 @@ func RunC07(t *testing.T, plan *Plan, st *core.Stream, extra Extra, keepLog bool
 			e.body, _ = json.Marshal(replies[0])
 		}
 		for _, c := range cs.Corr {
-			if c.Exch != k {
+			if c.Exch != k || phase != 0 {
 				continue
 			}
 			// re-decode the current body into replies so that combinations stack
@@ -768,7 +774,12 @@ func RunC07(t *testing.T, plan *Plan, st *core.Stream, extra Extra, keepLog bool
 		return e.status, e.body, nil
 	}
 	defer func() { directRT = nil }()
-	cl := jrpc2.New("http://c07-nocache.sim")
+	url := "http://c07-nocache.sim"
+	if cs.Retry {
+		url = "http://c07-cached.sim"
+		res.PlanDigest += " retry"
+	}
+	cl := jrpc2.New(url)
 	var got []eth.Block
 	var err error
 	func() {
@@ -778,8 +789,38 @@ func RunC07(t *testing.T, plan *Plan, st *core.Stream, extra Extra, keepLog bool
 				res.Violations = append(res.Violations, Violation{Class: panicClass(r), Msg: fmt.Sprintf("Get panicked on %s: %v", res.PlanDigest, r)})
 			}
 		}()
-		got, err = cl.Get(context.Background(), "http://c07-nocache.sim", f, cs.Start, cs.Limit)
+		got, err = cl.Get(context.Background(), url, f, cs.Start, cs.Limit)
 	}()
+	var (
+		ex1       = ex
+		got2      []eth.Block
+		err2      error
+		exRef     []*c07Exchange
+		retryDone bool
+	)
+	if cs.Retry && len(res.Violations) == 0 && applied > 0 {
+		phase = 1
+		ex = nil
+		func() {
+			defer func() {
+				if r := recover(); r != nil {
+					err2 = fmt.Errorf("PANIC: %v", r)
+					res.Violations = append(res.Violations, Violation{Class: panicClass(r), Msg: fmt.Sprintf("second Get panicked on %s: %v", res.PlanDigest, r)})
+				}
+			}()
+			got2, err2 = cl.Get(context.Background(), url, f, cs.Start, cs.Limit)
+		}()
+		res.Stats["retry_exchanges"] = len(ex)
+		// reference: an uncached client on clean responses
+		ex = nil
+		ref := jrpc2.New("http://c07-nocache.sim")
+		if _, rerr := ref.Get(context.Background(), "http://c07-nocache.sim", f, cs.Start, cs.Limit); rerr != nil {
+			res.HarnessErr = fmt.Sprintf("C07 retry reference Get failed: %v", rerr)
+		}
+		exRef = ex
+		retryDone = true
+		ex = ex1
+	}
 	res.Steps = len(ex)
 	res.Stats["exchanges"] = len(ex)
 	if len(cs.Corr) > 0 && applied == 0 {
@@ -814,6 +855,25 @@ func RunC07(t *testing.T, plan *Plan, st *core.Stream, extra Extra, keepLog bool
 		res.Stats["get_error"] = 1
 		if reason == "" {
 			res.Stats["benign_corruption_rejected"] = 1
+		}
+	}
+	if retryDone && len(res.Violations) == 0 && res.HarnessErr == "" {
+		res.Stats["retry_cases"] = 1
+		if err2 != nil {
+			res.Stats["retry_failed"] = 1
+		} else {
+			wantRef, reasonRef := c07Expect(cs, exRef)
+			if reasonRef != "" {
+				res.HarnessErr = "C07 retry reference exchanges not well-formed: " + reasonRef
+			} else if msg := c07Compare(cs, wantRef, got2); msg != "" {
+				cls := "retry-served-other-data"
+				if reason != "" && err != nil {
+					cls = "retry-served-rejected-data"
+				}
+				res.Violations = append(res.Violations, Violation{Class: cls + "/" + exKinds(ex1), Msg: fmt.Sprintf("the first Get hit a corrupted response (%s; first Get error: %v); the second Get for the same range saw only clean responses but returned: %s; case %s", reason, err, msg, res.PlanDigest)})
+			} else {
+				res.Stats["retry_ok"] = 1
+			}
 		}
 	}
 	if keepLog {
@@ -895,6 +955,11 @@ func c07Init() {
 									c := base
 									c.Corr = []C07Corr{{Exch: exch, Kind: kind, Elem: e, Arg: a}}
 									c07Cases = append(c07Cases, &c)
+									if ff := c.filter(); ff.UseBlocks || ff.UseHeaders {
+										r := c
+										r.Retry = true
+										c07Cases = append(c07Cases, &r)
+									}
 								}
 							}
 						}
